@@ -604,8 +604,16 @@ def h_load(ctx, shapes, bufs, sizes, tries, modes, nn_starts, pres,
             machine.structs = mc.structs
             mc._nn_id = nn0
             try:
-                mc.load_application(amap, app_id=app_id, wait=wait,
-                                    n_tries=n_tries, use_count=use_count)
+                if len(amap) == 1 and ctx.choose(2):
+                    # the (file name, targets) form of the call
+                    (fname, ftargets), = amap.items()
+                    mc.load_application(fname, ftargets, app_id=app_id,
+                                        wait=wait, n_tries=n_tries,
+                                        use_count=use_count)
+                    ctx.witness("two-argument form")
+                else:
+                    mc.load_application(amap, app_id=app_id, wait=wait,
+                                        n_tries=n_tries, use_count=use_count)
                 outcome = "returned"
             except mcm.SpiNNakerLoadingError as e:
                 outcome = "error"
@@ -863,7 +871,7 @@ def units(tier, seed):
     # block arithmetic: every size against both buffer sizes
     unit("sizes, 1 binary", shapes=("1 core", "empty"), bufs=(16, 32),
          sizes=tuple((s,) for s in ALL_SIZES), tries=(0, 1),
-         nn_starts=(0, 126))
+         nn_starts=(0, 126), witnesses=W + ("two-argument form",))
     unit("sizes, 2 binaries", shapes=("2 binaries same chip",),
          bufs=(16,) if q else (16, 32),
          sizes=(("-4", "+4"), ("0", "x2"), ("x2", "-4"), ("+4", "0")) if q
